@@ -341,6 +341,10 @@ def accessor_agreement(repo, rep):
 
 
 def run(repo, rep, tier):
+    rep.rule("R-C06-14", "(shared with C02) no statistic drops coordinates depending on the data of ALL spectra (dropna / where(drop=True)): which bins exist "
+                         "for one spectrum would depend on the others")
+    from .round7 import no_data_dependent_shape
+    no_data_dependent_shape(repo, rep, "R-C06-14")
     rep.rule("R-C06-12", "(shared with C07) the wrapper holds the GIL around partition(): with the GIL released, spectra of different chunks are processed "
                          "concurrently in the same static work arrays and each one's partitions depend on the others")
     from .c07 import gil_held as _gil
@@ -420,6 +424,10 @@ def run(repo, rep, tier):
     for f_, ln_, fn_, cons_, why_, anch_ in partition_state(repo):
         rep.fail("R-C06-7", f_, ln_, fn_, cons_, why_ + ": the Dataset accessor then disagrees with the array accessor after an in-place edit", anchor=anch_)
     contiguity(repo, rep, "R-C06-6")
+    rep.rule("R-C06-15", "(shared with C07 / C18) the per-spectrum kernels of apply_ufunc and what they call write no module-level object: a memo or a 'last "
+                         "solution' kept there makes the result of one spectrum depend on the spectra processed before it")
+    from .round7 import kernel_shared_state
+    kernel_shared_state(repo, rep, "R-C06-15", eng7)
     for q, why in EXEMPT_FUNCS.items():
         rep.note(f"out of scope: {q}: {why}")
     rep.trust("Python ast; xarray semantics: a reduction without dim reduces every dimension")
